@@ -132,3 +132,39 @@ impl Body for ScriptBody {
         http_body::SizeHint::with_exact(n)
     }
 }
+
+/// The scripted body with every DATA chunk presented as a non-contiguous `Buf` of two segments: a transport is
+/// free to hand over any `Buf`, not only `Bytes`.
+pub struct SegBody {
+    inner: ScriptBody,
+    seg: u8,
+}
+impl SegBody {
+    /// split every DATA chunk after len * seg / 256 bytes (0: the first segment is empty)
+    pub fn new(inner: ScriptBody, seg: u8) -> Self {
+        SegBody { inner, seg }
+    }
+}
+impl Body for SegBody {
+    type Data = bytes::buf::Chain<Bytes, Bytes>;
+    type Error = Status;
+    fn poll_frame(mut self: Pin<&mut Self>, cx: &mut Context<'_>) -> Poll<Option<Result<Frame<Self::Data>, Status>>> {
+        let seg = self.seg as usize;
+        Pin::new(&mut self.inner).poll_frame(cx).map(|o| {
+            o.map(|r| {
+                r.map(|f| {
+                    f.map_data(|mut d: Bytes| {
+                        let tail = d.split_off(d.len() * seg / 256);
+                        bytes::Buf::chain(d, tail)
+                    })
+                })
+            })
+        })
+    }
+    fn is_end_stream(&self) -> bool {
+        self.inner.is_end_stream()
+    }
+    fn size_hint(&self) -> http_body::SizeHint {
+        self.inner.size_hint()
+    }
+}
